@@ -75,10 +75,10 @@ fn wr_block(out: &mut Vec<u64>, b: &Option<BlockValue>) {
 
 fn digest(l: impl Iterator<Item = u64>) -> u64 { l.fold(7u64, |acc, x| (acc * 31 + x) % 1000003) }
 
-pub struct Server { pub h: BlockHandler<Ep>, pub live: Arc<AtomicI64> }
+pub struct Server { pub h: BlockHandler<Ep>, pub live: Arc<AtomicI64>, pub always: bool }
 impl Server {
     pub fn new(m: u64, ttl: Duration) -> Server {
-        Server { h: BlockHandler::new(BlockHandlerConfig { max_total_message_size: m as usize, cache_expiry_duration: ttl }), live: Arc::new(AtomicI64::new(0)) }
+        Server { h: BlockHandler::new(BlockHandlerConfig { max_total_message_size: m as usize, cache_expiry_duration: ttl }), live: Arc::new(AtomicI64::new(0)), always: false }
     }
     /// one exchange; returns the observation fields and the final response
     pub fn exchange(&mut self, p: &Packet, src: u64, rp: &Reply) -> (Vec<u64>, Option<Packet>) {
@@ -96,6 +96,11 @@ impl Server {
                 for (k, vs) in rp.opts.iter() { resp.message.set_option(CoapOption::from(*k), vs.iter().cloned().collect::<LinkedList<_>>()); }
                 resp.message.payload = rp.body.clone();
             }
+            let r2 = self.h.intercept_response(&mut rq);
+            wr_result(&mut out, &r2);
+        } else if self.always && matches!(r1, Ok(true)) {
+            // a server loop that passes EVERY outgoing response through intercept_response (mode 3)
+            out.push(0); out.push(0);
             let r2 = self.h.intercept_response(&mut rq);
             wr_result(&mut out, &r2);
         } else {
@@ -120,9 +125,10 @@ impl Server {
 
 fn run_steps(m: u64, mode: u64, steps: &[(u64, Option<(Packet, u64, Reply)>)], only: Option<u64>) -> Vec<u64> {
     // mode 0: one hour; mode 1: 40 ms with 200 ms sleeps; mode 2: 300 ms with 100 ms naps (only the last exchange is observed)
-    let ttl = match mode { 0 => Duration::from_secs(3600), 1 => Duration::from_millis(40), _ => Duration::from_millis(300) };
+    let ttl = match mode { 0 | 3 => Duration::from_secs(3600), 1 => Duration::from_millis(40), _ => Duration::from_millis(300) };
     let last_ex = steps.iter().rposition(|(_, s)| s.is_some());
     let mut srv = Server::new(m, ttl);
+    srv.always = mode == 3;
     let mut out = Vec::new();
     let mut after_sleep = false;
     for (idx, (tid, s)) in steps.iter().enumerate() {
@@ -134,7 +140,7 @@ fn run_steps(m: u64, mode: u64, steps: &[(u64, Option<(Packet, u64, Reply)>)], o
                 match r {
                     Ok((mut o, _)) => {
                         if mode == 2 { if Some(idx) == last_ex { if let Some(x) = o.last_mut() { *x = 0; } out.push(o.len() as u64); out.extend(o); } }
-                        else if mode == 0 || after_sleep { out.push(o.len() as u64); out.extend(o); }
+                        else if mode == 0 || mode == 3 || after_sleep { out.push(o.len() as u64); out.extend(o); }
                     }
                     Err(_) => { out.push(2); out.push(9); out.push(0); return out; }
                 }
@@ -204,6 +210,10 @@ fn play_block2_on(m: u64, first: &ReqSpec, src: u64, rp: &Reply, reduce_at: Opti
         req.mid = req.mid.wrapping_add(1);
         // fresh token per request (same length): a reply must carry the token of the request it answers
         for b in req.token.iter_mut() { *b = b.wrapping_mul(31).wrapping_add(17 + i as u8); }
+        // ... and, for transfers tagged by an odd message id, of another length (a counter token growing a byte)
+        if first.mid % 2 == 1 { if i % 2 == 0 && req.token.len() < 8 { req.token.push(i as u8); } else if req.token.len() > 0 { req.token.pop(); } }
+        // only the first request of a transfer uploads anything
+        req.b1 = None; if first.code != 5 { req.payload = vec![]; }
     }
     steps
 }
@@ -252,7 +262,7 @@ pub fn gen80(tier: &str, r: &mut Rng, emit: &mut dyn FnMut(Vec<u64>)) {
         first.token = r.bytes(tkl); first.mid = r.next() as u16;
         first.b2 = pref.map(|s| bv(0, false, s));
         let steps = play_block2(m, &first, 7, &rp, reduce, 1);
-        if steps.len() * (blen + 50) < 150_000 { emit(write_case(m, 0, &steps)); }
+        if steps.len() * (blen + 50) < 150_000 { emit(write_case(m, if blen % 5 == 4 { 3 } else { 0 }, &steps)); }
     };
     // every body length 0..3*sz+1 for the block sizes the default budget and small budgets choose
     for szx in 0..7u8 {
@@ -301,6 +311,24 @@ pub fn gen80(tier: &str, r: &mut Rng, emit: &mut dyn FnMut(Vec<u64>)) {
         steps.extend(play_block2_on(m, &second, 7, &rp2, None, 2, &steps));
         emit(write_case(m, 0, &steps));
     }
+    // the first request ends an upload (single final Block1 block) AND negotiates Block2 early; and FETCH transfers whose
+    // follow-up requests repeat the request body
+    for _ in 0..(if thorough { 1500 } else { 150 }) {
+        let opts = rand_reply_opts(r);
+        let m = r.pick(&[100u64, 200, 600, 1152]).max(min_budget(&opts, 8) + 30);
+        let rp = Reply { code: r.pick(&[0x45u64, 0x44]), opts, body: r.bytes_pick(&[20usize, 100, 700, 2500]) };
+        let mut first = ReqSpec::get(&["res", "c"]);
+        first.token = r.bytes_below(9); first.mid = r.next() as u16;
+        if r.chance(1, 2) {
+            first.code = r.pick(&[2u64, 3]); first.b1 = Some(bv(0, false, r.below(3) as u8)); first.payload = r.bytes_pick(&[1usize, 9, 16]);
+            first.b2 = Some(bv(0, false, r.below(4) as u8));
+        } else {
+            first.code = 5; first.payload = r.bytes_pick(&[3usize, 12]);
+            first.b2 = if r.chance(1, 2) { Some(bv(0, false, r.below(4) as u8)) } else { None };
+        }
+        let steps = play_block2(m, &first, 7, &rp, None, 1);
+        emit(write_case(m, 0, &steps));
+    }
     // early negotiation x budgets x mid-transfer reduction
     for _ in 0..(if thorough { 4_000 } else { 500 }) {
         let blen = r.pick(&[0usize, 1, 15, 16, 17, 100, 500, 1023, 1024, 1025, 3000]);
@@ -342,9 +370,25 @@ pub fn gen90(tier: &str, r: &mut Rng, emit: &mut dyn FnMut(Vec<u64>)) {
                     steps.extend(upload_steps(9, &base, 7, &obody, oszx, &|_| 1, Some(upto), &rp));
                 }
                 steps.extend(upload_steps(1, &base, 7, &body, szx, &dups, None, &rp));
-                emit(write_case(1152, 0, &steps));
+                emit(write_case(1152, if (blen + variant as usize) % 4 == 3 { 3 } else { 0 }, &steps));
             }
         }
+    }
+    // an abandoned upload with one Content-Format (or none), then a complete upload with another
+    for _ in 0..(if thorough { 600 } else { 60 }) {
+        let szx = r.below(3) as u8; let sz = 16usize << szx;
+        let mut b = base.clone(); b.code = r.pick(&[2u64, 3, 5, 6, 7]);
+        let cfs: [Option<u8>; 4] = [None, Some(0), Some(50), Some(60)];
+        let (c1, c2) = (r.pick(&cfs), r.pick(&cfs));
+        let mut a = b.clone(); if let Some(c) = c1 { a.extra.push((12, vec![if c == 0 { vec![] } else { vec![c] }])); }
+        let mut n = b.clone(); if let Some(c) = c2 { n.extra.push((12, vec![if c == 0 { vec![] } else { vec![c] }])); }
+        let old = r.bytes(sz * 3 + 1);
+        let upto = 1 + r.below(3) as usize;
+        let mut steps = upload_steps(9, &a, 7, &old, szx, &|_| 1, Some(upto), &rp);
+        let nb = 1 + r.below(3) as usize;
+        let body = r.bytes(sz * nb + 5);
+        steps.extend(upload_steps(1, &n, 7, &body, szx, &|_| 1, None, &rp));
+        emit(write_case(1152, 0, &steps));
     }
     // the final block delivered twice (known finding D11)
     for blen in [21usize, 40, 16] { let body = r.bytes(blen); let n = (blen + 15) / 16;
@@ -398,7 +442,7 @@ pub fn gen100(tier: &str, r: &mut Rng, emit: &mut dyn FnMut(Vec<u64>)) {
         let k = 4 + r.below(7);
         let m = match r.below(4) { 0 => (overhead + 12 + (1 << k)).saturating_sub(3) + r.below(7), 1 => overhead + 28 + r.below(8), 2 => 1277 + r.below(4), _ => overhead + 28 + r.below(1280 - overhead - 28 + 1) };
         let m = m.min(1283);
-        let rp = Reply { code: 0x45, opts: ropts, body: r.bytes_pick(&[0usize, 10, 100, 600, 1300, 3000]) };
+        let rp = Reply { code: r.pick(&[0x45u64, 0x45, 0x44, 0x80, 0x84, 0xA0, 0x5F]), opts: ropts, body: r.bytes_pick(&[0usize, 10, 100, 600, 1300, 3000]) };
         if r.chance(2, 3) {
             first.b2 = if r.chance(1, 2) { Some(bv(0, false, r.below(8) as u8)) } else { None };
             let steps = play_block2(m, &first, 7, &rp, None, 1);
@@ -456,6 +500,9 @@ pub fn gen110(tier: &str, r: &mut Rng, emit: &mut dyn FnMut(Vec<u64>)) {
             let (tid, &(src, code, path)) = { let i = r.below(4) as usize; (i as u64, &keys[i]) };
             let mut q = ReqSpec::get(path); q.code = code; q.mid = i as u16; q.ty = r.pick(&[0u8, 0, 0, 1, 2, 3]);
             q.token = r.bytes_below(9);
+            // a code that is no method (0.00 with a payload, a response code, a reserved one): all of them read as the unknown
+            // method, i.e. ONE further cache key per (endpoint, path)
+            let tid = if r.chance(1, 8) { q.code = r.pick(&[0u64, 0, 0x45, 0x1F, 0xFF]); 100 + if tid == 1 { 0 } else { tid } } else { tid };
             if r.chance(1, 4) { let bloat = r.pick(&[10usize, 200, 1100, 1270, 1300, 1400]); q.extra.push((r.pick(&[15u16, 35, 2000]), vec![r.bytes(bloat)])); }
             let num = r.pick(&[0u64, 1, 2, 100, 4095, 4096, 65535]);
             let blk = |r: &mut Rng| -> Vec<u8> { match r.below(6) { 0 => r.bytes_below(5), _ => bv(r.pick(&[0u64, 1, 2, 100, 4095, 4096, 65535]), r.chance(1, 2), r.below(8) as u8) } };
@@ -521,6 +568,9 @@ pub fn gen120(tier: &str, r: &mut Rng, emit: &mut dyn FnMut(Vec<u64>)) {
         vec![(7, 3, vec![]), (7, 3, vec!["a"])],
         vec![(7, 3, vec!["a", "b"]), (7, 3, vec!["a/b"]), (8, 3, vec!["a", "b"])],
         vec![(7, 1, vec!["x"]), (7, 2, vec!["x"]), (7, 1, vec!["x", ""])],
+        vec![(7, 1, vec!["costarring"]), (7, 1, vec!["liquid"])],
+        vec![(7, 3, vec!["declinate", "v2"]), (7, 3, vec!["macallums", "v2"])],
+        vec![(7, 1, vec!["altarage"]), (7, 1, vec!["zinke"]), (7, 1, vec!["playwright"])],
     ];
     for (vi, keyset) in variants.iter().enumerate() {
         for round in 0..(if thorough { 4 } else { 2 }) {
@@ -568,6 +618,11 @@ pub fn gen200(tier: &str, r: &mut Rng, emit: &mut dyn FnMut(Vec<u64>)) {
             q.b2 = Some(bv(0, false, 0));
             steps.push(Step::Ex(1, q.desc(), 7, rp.clone()));
             for i in 0..n { steps.push(other(i)); }
+            for (j, (code, rc)) in [(3u64, 0x44u64), (2, 0x41), (4, 0x42), (5, 0x45)].iter().enumerate() {
+                let mut o = q.clone(); o.code = *code; o.b2 = None; o.mid = 60 + j as u16; o.token = vec![8, j as u8];
+                if *code != 4 { o.payload = vec![1, 2]; }
+                steps.push(Step::Ex(41 + j as u64, o.desc(), 7, Reply { code: *rc, opts: vec![], body: vec![] }));
+            }
             // a different resource whose joined path reads the same, requested by the same endpoint with the same method
             { let mut o = ReqSpec::get(&["ke/ep"]); o.mid = 77; o.token = vec![9]; steps.push(Step::Ex(40, o.desc(), 7, Reply { code: 0x45, opts: vec![], body: r.bytes(if n % 2 == 1 { 3000 } else { 50 }) })); }
             let mut f = q.clone(); f.b2 = Some(bv(1, false, 0)); f.mid = 9; steps.push(Step::Ex(1, f.desc(), 7, rp));
@@ -577,6 +632,11 @@ pub fn gen200(tier: &str, r: &mut Rng, emit: &mut dyn FnMut(Vec<u64>)) {
             let up = upload_steps(1, &q, 7, &body, 0, &|_| 1, None, &Reply { code: 0x44, ..Default::default() });
             steps.extend(up[..2].iter().cloned());
             for i in 0..n { steps.push(other(i)); }
+            for (j, code) in [2u64, 5, 6, 7].iter().enumerate() {
+                let mut o = q.clone(); o.code = *code; o.mid = 60 + j as u16; o.token = vec![8, j as u8];
+                o.b1 = Some(bv(0, true, 0)); o.payload = vec![j as u8; 16];
+                steps.push(Step::Ex(41 + j as u64, o.desc(), 7, Reply::default()));
+            }
             { let mut o = ReqSpec::get(&["ke/ep"]); o.code = 3; o.mid = 77; o.token = vec![9]; o.payload = vec![1, 2, 3]; if n % 2 == 1 { o.b1 = Some(bv(0, false, 0)); } steps.push(Step::Ex(40, o.desc(), 7, Reply { code: 0x44, ..Default::default() })); }
             steps.push(up[2].clone());
         }
